@@ -20,6 +20,18 @@ pub fn generate(g: &mut Gen, thorough: bool) {
             }
         }
     }
+    // whole minutes and whole seconds, computed as a user would (d + m/60 + s/3600): where the fields carry
+    for d in [0.0, 7.0, 17.0, 55.0, 123.0, 359.0, 719.0] {
+        for m in 0..60 {
+            for sec in [0.0, 1.0, 30.0, 59.0] {
+                let v = d + m as f64 / 60.0 + sec / 3600.0;
+                angles.push(v);
+                if m % 7 == 0 {
+                    angles.push(-v);
+                }
+            }
+        }
+    }
     for _ in 0..(if thorough { 20000 } else { 2000 }) {
         angles.push(g.rng.uniform(-720.0, 720.0));
         angles.push(g.rng.uniform(-1.0, 1.0));
